@@ -32,6 +32,12 @@ class Ctx:
         self.t0 = time.time()
         self.rundir = os.path.join(build.BUILD, "run", "%s-%d" % (pid, os.getpid()))
         shutil.rmtree(self.rundir, ignore_errors=True)
+        # janitor: scratch of earlier runs of this property whose process is gone (kept after a violation for inspection)
+        base = os.path.dirname(self.rundir)
+        if os.path.isdir(base):
+            for d in os.listdir(base):
+                if d.startswith(pid + "-") and d.split("-")[-1].isdigit() and not os.path.exists("/proc/" + d.split("-")[-1]):
+                    shutil.rmtree(os.path.join(base, d), ignore_errors=True)
         os.makedirs(self.rundir)
         self.replaydir = os.path.join(build.BUILD, "replay", pid)
         self.states = 0
